@@ -5,6 +5,8 @@ use core::fmt;
 use core::hash::{Hash, Hasher};
 
 mod index_map;
+#[cfg(json_syntax_verif)]
+pub mod verif;
 
 pub use index_map::Equivalent;
 use index_map::IndexMap;
@@ -765,6 +767,15 @@ impl Object {
 	pub fn canonicalize(&mut self) {
 		let mut buffer = ryu_js::Buffer::new();
 		self.canonicalize_with(&mut buffer)
+	}
+}
+
+#[cfg(json_syntax_verif)]
+impl Object {
+	/// Verification hook: read-only dump of the key index (see
+	/// `IndexMap::verif_dump`).
+	pub fn verif_index_dump(&self) -> (usize, Vec<(usize, Vec<usize>)>) {
+		self.indexes.verif_dump()
 	}
 }
 
